@@ -7,6 +7,7 @@ import SgeProofs.Properties.C01Combined
 import SgeProofs.Properties.C13Core
 import SgeProofs.Lemmas.CombinedHooksTotalInv
 import SgeProofs.Lemmas.CombinedBankExactInv
+import SgeProofs.Lemmas.CombinedLock
 namespace Sge.Combined
 open Sge Sge.Core Sge.Genesis
 
@@ -190,5 +191,31 @@ theorem c11_subaccount_only_deposits_combined (p : Params) (bal : List (Nat × I
   intro bk hbk q hq hge
   have hs := hI.ht.ret.sett.cmb2_srt
   exact hI.owned bk.uid bk q.idx q (mem_getBook hs.1 hbk) (Book.mem_getPart (hs.2 bk hbk) hq) hge
+
+-- ---------------------------------------------------------------------------------------------
+-- C11.3 over combined histories: locked funds stay locked
+
+/-- C11 (combined), LOCK BOUND. The combined model is the code of /repo as it is, i.e. WITH the repair of
+    `WithdrawableUnlockedBalance` (fix commit b540483: the unlocked total is reduced by what was already withdrawn;
+    `withdrawUnlockedO` calls `Summary.withdrawableUnlocked true`). The unrepaired variant is not part of the combined
+    model; its counter-example (`fixed = false`: the same unlocked amount is paid out again and again) stays in
+    Properties/C11.lean on the x/subaccount slice.
+    For EVERY combined history — no well-formedness of signers is needed — in which block times never decrease
+    (`cmb2_timesMono`, a decidable predicate on the operation list: every `newBlock` carries a time ≥ the previous one),
+    in every reachable state and for every subaccount: the total paid out so far by `MsgWithdrawUnlockedBalances`
+    (ghost counter `released`, increased by exactly the amount sent to the owner and by nothing else) is at most
+    `Withdrawn` and at most the sum of the locks whose unlock time lies before the current block time. Wagers paid by
+    the subaccount, house deposits / withdrawals, settlement hooks and top-ups never move it. -/
+theorem c11_lock_bound_combined (p : Params) (bal : List (Nat × Int)) (h t : Nat) (we de : Bool) (ops : List Op)
+    (hmono : cmb2_timesMono t ops = true) :
+    let s := run (init p bal h t we de) ops
+    ∀ a r, aget s.subs a = some r →
+      0 ≤ r.released ∧ r.released ≤ r.sum.withdrawn ∧ r.released ≤ Sge.Subaccount.unlockedSum s.core.time r.locks := by
+  intro s a r har
+  have h0 : cmb2_LockInv (init p bal h t we de) := by
+    intro b rb hb; simp [init, aget] at hb
+  have hI := cmb2_run_lock ops (init p bal h t we de) h0 hmono
+  have := hI a r har
+  exact ⟨this.rel0, this.relWd, this.lock⟩
 
 end Sge.Combined
